@@ -171,11 +171,19 @@ def run_kernel(ctx, pid, plans, accept_oracle=None, extra_stats=None, level_when
 
     # ---- verdict ---------------------------------------------------------------------------
     reported = 0
-    for (tracefile, tr, step, op, wit) in oracle_hits[:3]:
+    # one report per distinct signature; a witness of the form "Fnn:what" carries its own signature
+    def sig_of(op, wit):
+        m = re.match(r"^(F\d+[a-z]?:[\w.-]+)", wit)
+        return "%s:%s" % (pid, m.group(1)) if m else "%s:%s" % (pid, op)
+    by_sig = {}
+    for h in oracle_hits:
+        by_sig.setdefault(sig_of(h[3], h[4]), h)
+    oracle_first = list(by_sig.values())[:6]
+    for (tracefile, tr, step, op, wit) in oracle_first:
         pre = trace_prefix(tracefile, tr, step)
         text = "\n".join(pre) + "\n# property %s fails on the implementation's own state after the last operation above\n# %s\n# replay: kernel_drv --replay <this file> | ovmjudge\n" % (pid, wit)
         p = ctx.write_replay("oracle-t%s-s%d.trace" % (tr, step), text)
-        ctx.violation(p, "%s: %s" % (op, wit[:300]), found_input=True, sig="%s:%s" % (pid, op))
+        ctx.violation(p, "%s: %s" % (op, wit[:300]), found_input=True, sig=sig_of(op, wit))
         reported += 1
     for (tracefile, tr, step, op, wit, stderr) in crashes[:2]:
         pre = trace_prefix(tracefile, tr, step)
